@@ -67,9 +67,8 @@ def check_pair(psutil, w, rows1, rows2, nf, form, blocking, viols, case):
                 return outcome(fn, interval=0.25, percpu=percpu)
             finally:
                 w.hook = None
-        if first:
-            return outcome(fn, interval=None, percpu=percpu)
-        return outcome(fn, interval=None, percpu=percpu)
+        # the non-blocking form is spelled None, 0 or 0.0
+        return outcome(fn, interval=(None, 0.0, 0)[(len(rows1) + nf + (0 if first else 1)) % 3], percpu=percpu)
     for name in ("cpu_percent", "cpu_times_percent"):
         fn = getattr(psutil, name)
         set_stat(w, rows1, nf)
@@ -140,7 +139,7 @@ def run_case(case, w):
     elif k == "pair":
         deltas, nf, ncpu, form, blocking = case[1], case[2], case[3], case[4], case[5]
         rows1 = [[b + 1000 * c for b in BASE] for c in range(ncpu)]
-        rows2 = [[a + (dl if c == 0 else (dl if dl > 0 else 0) * (c + 1)) for a, dl in zip(r, list(deltas) + [0] * 10)]
+        rows2 = [[a + (dl if c == 0 else (dl if dl > 0 else 0) * ((c * 7) % 11 + 1)) for a, dl in zip(r, list(deltas) + [0] * 10)]
                  for c, r in enumerate(rows1)]
         check_pair(psutil, w, rows1, rows2, nf, form, blocking, viols, case)
     elif k == "proc":
@@ -154,6 +153,17 @@ def run_case(case, w):
         pr = psutil.Process(4321)
         prev = None
         for i, (kind, du, ds, dw) in enumerate(seq):
+            if kind == "x":
+                # a call that fails (stat refused): it must not disturb what the next call measures against
+                w.mono += dw
+                p.stat["utime"] += du
+                p.stat["stime"] += ds
+                p.denied.add("stat")
+                got = outcome(pr.cpu_percent, None)
+                p.denied.discard("stat")
+                if not (got[0] == "exc" and got[1] == "AccessDenied"):
+                    viols.append(("Process.cpu_percent:denied-call", repr(got)))
+                continue
             if kind == "n":
                 w.mono += dw
                 p.stat["utime"] += du
@@ -178,6 +188,17 @@ def run_case(case, w):
                 exp = round(100 * ((du + ds) / CLK_TCK) / dw, 1)
             prev = (w.mono, p.stat["utime"] + p.stat["stime"])
             if got[0] != "ok" or abs(got[1] - exp) > 0.051:
+                if any(k_ == "x" for k_, *_ in seq[:i]):
+                    # after a failed call either baseline (last successful call / the failed call) is acceptable as long as
+                    # CPU seconds and wall seconds are taken from the same instant
+                    alt_ok = False
+                    if got[0] == "ok" and prev is not None:
+                        # since the failed call: cpu and wall deltas of this step only
+                        exp2 = round(100 * ((du + ds) / CLK_TCK) / dw, 1) if dw > 0 else 0.0
+                        alt_ok = abs(got[1] - exp2) <= 0.051
+                    if alt_ok:
+                        prev = (w.mono, p.stat["utime"] + p.stat["stime"])
+                        continue
                 viols.append(("Process.cpu_percent:%s" % ("first" if i == 0 else "after-" + seq[i - 1][0] + "-then-" + kind),
                               "call %d of %r (ncpu=%d): got %r expected %r" % (i, seq, ncpu, got, exp)))
                 break
@@ -203,6 +224,12 @@ def worker(chunk):
 
 def build_cases(thorough):
     cases = [("neg",)]
+    for nf in (8, 10):
+        rows12 = [[(c + 1) * 1000 + 7 * i for i in range(10)] for c in range(12)]
+        cases.append(("times", rows12, nf))
+        d12 = [5, 0, 3, 40, 0, 0, 0, 0, 0, 0][:nf]
+        cases.append(("pair", d12, nf, 12, "percpu", False))
+        cases.append(("pair", d12, nf, 12, "percpu", True))
     for ncpu in (1, 2, 3):
         for nf in (7, 8, 9, 10):
             cases.append(("times", [[(c + 1) * 1000 + 7 * i for i in range(10)] for c in range(ncpu)], nf))
@@ -237,6 +264,10 @@ def build_cases(thorough):
                     cases.append(("pair", d, nf, 2 if form == "percpu" else 1, form, blocking))
     # Process.cpu_percent: sequences of 3 calls over a grid
     grid = [(0, 0, 0.5), (10, 5, 0.5), (50, 0, 0.25), (0, 200, 1.0), (30, 30, 2.0)]
+    for ncpu in (1, 4):
+        for gs in ((grid[1], grid[2], grid[3]), (grid[3], grid[4], grid[1])):
+            cases.append(("proc", [("n",) + gs[0], ("x",) + gs[1], ("n",) + gs[2]], ncpu))
+            cases.append(("proc", [("b",) + gs[0], ("x",) + gs[1], ("n",) + gs[2], ("n",) + gs[0]], ncpu))
     kinds = ["n", "b"]
     for ncpu in (1, 16):
         for ks in itertools.product(kinds, repeat=3):
